@@ -3,7 +3,7 @@ CONSTANTS
   P = 4
   EP = 2
   G = 2
-  MaxSlot = 1200
+  MaxSlot = 1600
   StartSlots = {1000}
   Mode = "design"
   RecMax = 100
@@ -15,6 +15,11 @@ CONSTANTS
   Menu = {{}, {1}, {0, 3}, {0, 2, 3}, {1, 2, 3}}
   Moods = {"quiet", "plain", "plain", "reorg", "reorg"}
   MaxReorgs = 1
+  MsgLates = {0, 1, 2, 5, 9, 13}
+  AucLates = {0, 1, 2, 36, 44}
+  SubLates = {0, 2, 11, 14}
+  AttLates = {0, 3, 6, 9}
+  MaxHeld = 6
   Focus = FALSE
   Fams = {"bids"}
 INVARIANTS Emit BidsBounded
